@@ -1,6 +1,8 @@
 package props
 
 import (
+	"strings"
+	"github.com/buildbuildio/pebbles/planner"
 	"github.com/vektah/gqlparser/v2/ast"
 	"github.com/vektah/gqlparser/v2"
 	"encoding/json"
@@ -41,6 +43,18 @@ func TestDbgReplay(t *testing.T) {
 		fmt.Printf("--- %s call %d pos %d valid=%v %s\n%s\nvars %s\n=> %s\n", e.Service, e.CallID, e.Pos, e.Valid, e.ValidErr, e.Query, vb, rb)
 	}
 	fmt.Printf("ANSWER %s\n", hr.Body)
+	if _, _, _, plan, perr := planShape(r, &cs.Op); perr == nil {
+		var pr func(st *planner.QueryPlanStep, ind string)
+		pr = func(st *planner.QueryPlanStep, ind string) {
+			fmt.Printf("%sSTEP %s parent=%s ip=%v\n%s  %s\n", ind, st.URL, st.ParentType, st.InsertionPoint, ind, strings.Join(strings.Fields(st.QueryString), " "))
+			for _, t := range st.Then {
+				pr(t, ind+"    ")
+			}
+		}
+		for _, st := range plan.RootSteps {
+			pr(st, "")
+		}
+	}
 	doc, gerr := gqlparser.LoadQuery(r.Merged.Schema, cs.Op.Query)
 	fmt.Println(gerr)
 	tags := map[string]bool{}
